@@ -175,6 +175,10 @@ Proof.
   2:{ constructor; cbn; auto.
       - intros n r Hn. apply (C n r). apply SUB. exact Hn.
       - intros n1 n2 r1 r2 H1 H2. apply (D n1 n2 r1 r2); apply SUB; assumption. }
+  destruct (has (cr_from rq) (n_relays (cn_tab c))) eqn:Efr; cbn [fst].
+  { constructor; cbn; auto.
+    - intros n r Hn. apply (C n r). apply SUB. exact Hn.
+    - intros n1 n2 r1 r2 H1 H2. apply (D n1 n2 r1 r2); apply SUB; assumption. }
   destruct (in_use_false _ _ (C ident rq Ea)) as (T1 & T2 & T3).
   assert (Hft : cr_to rq <> cr_from rq). { intros Heq. rewrite Heq in T3. apply assoc_has in Ee. congruence. }
   constructor; cbn.
@@ -274,6 +278,22 @@ Proof.
     unfold set_tab. apply (ok_upd_circuit c cid c0 (cn_pending c) O Eh). auto.
 Qed.
 
+(* a created never changes an existing relay entry: it only adds the two routes of the new pair, under ids
+   that had no relay route before *)
+Lemma created_never_overwrites_relay_l (c : cnode) src cid ident :
+  tables_ok c ->
+  forall x r, assoc x (n_relays (cn_tab c)) = Some r ->
+              assoc x (n_relays (cn_tab (fst (on_created c src cid ident)))) = Some r.
+Proof.
+  intros O x r Hx. unfold on_created. destruct (assoc ident (cn_create c)) as [rq|] eqn:Ea; [|exact Hx].
+  destruct (assoc (cr_from rq) (n_exits (cn_tab c))) as [es|] eqn:Ee; [|exact Hx].
+  destruct (has (cr_from rq) (n_relays (cn_tab c))) eqn:Efr; [exact Hx|].
+  cbn. destruct O as [R H E C D]. destruct (in_use_false _ _ (C ident rq Ea)) as (_ & T2 & _).
+  assert (x <> cr_from rq) by (intros ->; apply assoc_has in Hx; congruence).
+  assert (x <> cr_to rq) by (intros ->; apply assoc_has in Hx; congruence).
+  rewrite !assoc_upd_other by assumption. exact Hx.
+Qed.
+
 (* ---- entries are never re-keyed ---- *)
 Lemma keys_kept_eq (a b : node key) : n_relays a = n_relays b -> n_exits a = n_exits b -> keys_kept a b.
 Proof.
@@ -312,6 +332,7 @@ Proof.
     intros H. injection H as H. apply (f_equal fst) in H. cbn [fst] in H. rewrite <- H. clear H.
     unfold on_created. destruct (assoc ident (cn_create c)) as [rq|] eqn:Ea; [|apply keys_kept_eq; reflexivity].
     destruct (assoc (cr_from rq) (n_exits (cn_tab c))) as [es|] eqn:Ee; [|apply keys_kept_eq; reflexivity].
+    destruct (has (cr_from rq) (n_relays (cn_tab c))) eqn:Efr; [apply keys_kept_eq; reflexivity|].
     cbn. destruct O as [R Hh E C D]. destruct (in_use_false _ _ (C ident rq Ea)) as (_ & T2 & _). split; cbn.
     + intros x r r' H1 H2. destruct (Z.eq_dec x (cr_from rq)) as [->|Hn1].
       * rewrite assoc_upd_same in H2. injection H2 as <-. cbn. destruct (Hh _ _ _ H1 Ee) as [_ Hk]. symmetry. exact Hk.
